@@ -9,13 +9,15 @@ GROUPS = {
     "is_newer": dict(
         crate="zksync_consensus_roles",
         splice=[("libs/roles/src/validator/messages/discovery.rs", "kani/is_newer.rs")],
-        harnesses=[dict(name="is_newer_strict_total_order", kind="complete", timeout=1800)],
+        harnesses=[dict(name="is_newer_strict_total_order", kind="complete", timeout=1800, quick=True)],
     ),
     "phase": dict(
         crate="zksync_consensus_roles",
         splice=[("libs/roles/src/validator/messages/v2/consensus.rs", "kani/phase.rs")],
         stubbing=True,
-        harnesses=[dict(name="phase_roundtrip", kind="complete", timeout=1200),
+        harnesses=[dict(name="phase_roundtrip_prepare", kind="complete", timeout=600, quick=True),
+                   dict(name="phase_roundtrip_commit", kind="complete", timeout=600, quick=True),
+                   dict(name="phase_roundtrip_timeout", kind="complete", timeout=600, quick=True),
                    dict(name="view_roundtrip", kind="complete", timeout=1800),
                    dict(name="replica_commit_roundtrip", kind="complete", timeout=1800)],
     ),
@@ -23,9 +25,9 @@ GROUPS = {
         crate="zksync_protobuf",
         splice=[("libs/protobuf/src/std_conv.rs", "kani/std_conv.rs")],
         stubbing=True,
-        harnesses=[dict(name="duration_read_total", kind="complete", timeout=500),
+        harnesses=[dict(name="duration_read_total", kind="complete", timeout=500, quick=True),
                    dict(name="duration_roundtrip", kind="complete", timeout=1200),
                    dict(name="utc_read_total", kind="complete", timeout=500),
-                   dict(name="socket_addr_roundtrip", kind="complete", timeout=1800)],
+                   dict(name="socket_addr_roundtrip", kind="complete", timeout=1800, quick=True)],
     ),
 }
